@@ -655,6 +655,9 @@ class CDSInterval(AbstractFeatureInterval):
         Any leading or trailing bases that are annotated as CDS but cannot form a full codon
         are excluded.
         """
+        # a CDS with no base on its sequence chunk has no chunk-relative codons
+        if chunk_relative_coordinates and self.chunk_relative_location.is_empty:
+            return
         # can only do naive window scanning if this CDS has exactly one exon
         if self.num_blocks > 1:
             codon_fn = self._prepare_multi_exon_window_for_scan_codon_locations
